@@ -137,9 +137,51 @@ var famS = []wrapFn{
 	func() datamodel.Node { return bindnode.Wrap(&S6{A: 2}, nil) }, func() datamodel.Node { return bindnode.Wrap(&S7{A: 2}, nil) },
 }
 
+// slowReader is an io.ReadSeeker that hands out at most 3 bytes per Read and yields the processor
+// before and after every operation.
+type slowReader struct {
+	data []byte
+	pos  int64
+}
+
+func (r *slowReader) Read(p []byte) (int, error) {
+	runtime.Gosched()
+	if r.pos >= int64(len(r.data)) {
+		return 0, io.EOF
+	}
+	n := copy(p, r.data[r.pos:min64(r.pos+3, int64(len(r.data)))])
+	r.pos += int64(n)
+	runtime.Gosched()
+	return n, nil
+}
+
+func (r *slowReader) Seek(off int64, whence int) (int64, error) {
+	runtime.Gosched()
+	switch whence {
+	case io.SeekCurrent:
+		off += r.pos
+	case io.SeekEnd:
+		off += int64(len(r.data))
+	}
+	if off < 0 {
+		return 0, fmt.Errorf("negative position")
+	}
+	r.pos = off
+	runtime.Gosched()
+	return off, nil
+}
+
+func min64(a, b int64) int64 {
+	if a < b {
+		return a
+	}
+	return b
+}
+
 type world struct {
 	nodes     []datamodel.Node // shared nodes
 	sel       selector.Selector
+	sels      []selector.Selector // more shared compiled selectors (unions with a fields clause first)
 	cfg       *traversal.Config
 	lsys      linking.LinkSystem
 	links     []datamodel.Link
@@ -155,6 +197,59 @@ type world struct {
 var ssb = builder.NewSelectorSpecBuilder(basicnode.Prototype.Any)
 
 func cidPrefix() cid.Prefix { return cid.Prefix{Version: 1, Codec: 0x71, MhType: 0x12, MhLength: 32} }
+
+// a union whose FIRST member is a fields clause with nf fields and whose later members add further
+// segments (an index, two more fields), under a recursion: Interests() of such a union is computed on
+// every step of every walk from the compiled (shared) selector
+func unionSelector(nf int) selector.Selector {
+	spec := ssb.ExploreRecursive(selector.RecursionLimitDepth(4), ssb.ExploreUnion(
+		ssb.ExploreFields(func(b builder.ExploreFieldsSpecBuilder) {
+			for i := 0; i < nf; i++ {
+				b.Insert("f"+strconv.Itoa(i), ssb.ExploreRecursiveEdge())
+			}
+		}),
+		ssb.ExploreIndex(0, ssb.ExploreRecursiveEdge()),
+		ssb.ExploreFields(func(b builder.ExploreFieldsSpecBuilder) {
+			b.Insert("x", ssb.Matcher())
+			b.Insert("y", ssb.ExploreRecursiveEdge())
+		}),
+		ssb.Matcher(),
+	))
+	s, err := selector.CompileSelector(spec.Node())
+	if err != nil {
+		panic(err)
+	}
+	return s
+}
+
+// a node those selectors have something to do on: maps with fields f0..f8, x, y over lists and maps
+func unionNode() datamodel.Node {
+	leaf := lib.Map(lib.Entry{K: "x", V: lib.Int(1)}, lib.Entry{K: "y", V: lib.List(lib.Str("a"), lib.Int(2))})
+	inner := &lib.Val{Kind: lib.KMap}
+	for i := 0; i < 9; i++ {
+		var v *lib.Val
+		switch i % 3 {
+		case 0:
+			v = lib.List(leaf, lib.Int(int64(i)))
+		case 1:
+			v = leaf
+		default:
+			v = lib.Str("s" + strconv.Itoa(i))
+		}
+		inner.M = append(inner.M, lib.Entry{K: "f" + strconv.Itoa(i), V: v})
+	}
+	inner.M = append(inner.M, lib.Entry{K: "x", V: lib.Bool(true)}, lib.Entry{K: "y", V: lib.List(leaf)})
+	root := &lib.Val{Kind: lib.KMap}
+	for i := 0; i < 9; i++ {
+		root.M = append(root.M, lib.Entry{K: "f" + strconv.Itoa(i), V: inner})
+	}
+	root.M = append(root.M, lib.Entry{K: "y", V: lib.List(inner, leaf)})
+	n, err := lib.BuildBasic(root)
+	if err != nil {
+		panic(err)
+	}
+	return n
+}
 
 func allSelector() selector.Selector {
 	s, err := selector.CompileSelector(ssb.ExploreRecursive(selector.RecursionLimitNone(),
@@ -207,7 +302,13 @@ type BMap {String:Int}
 		}
 		w.cfg = &traversal.Config{Ctx: context.Background(), LinkTargetNodePrototypeChooser: chooser}
 	case "stream":
-		w.stream = basicnode.NewBytesFromReader(bytes.NewReader([]byte("abcdefgh")))
+		// a slow source: short reads, and it yields inside Read and Seek, so that whatever the node does
+		// between positioning the source and reading it is interleaved with the other goroutines
+		data := make([]byte, 64)
+		for i := range data {
+			data[i] = byte('a' + i%26)
+		}
+		w.stream = basicnode.NewBytesFromReader(&slowReader{data: data})
 	case "bindviews":
 		r := &rec{Name: "ann", Age: 41, Tags: []string{"x", "y", "z"}}
 		tn := bindnode.Wrap(r, w.recType)
@@ -223,7 +324,10 @@ type BMap {String:Int}
 		w.nodes = []datamodel.Node{tn, tn.(schema.TypedNode).Representation(), tm, tm.(schema.TypedNode).Representation(), gb.Build()}
 	case "walkcfg", "walklazy":
 		n, _ := lib.BuildBasic(valOf("m2,k61,a3,i1,i2,s78,k62,m1,k63,t"))
-		w.nodes = []datamodel.Node{n}
+		w.nodes = []datamodel.Node{n, unionNode()}
+		for _, nf := range []int{3, 5, 6, 7, 9} {
+			w.sels = append(w.sels, unionSelector(nf))
+		}
 		if kind == "walkcfg" {
 			w.cfg = &traversal.Config{Ctx: context.Background(), LinkTargetNodePrototypeChooser: chooser}
 		} else {
@@ -425,6 +529,15 @@ func (w *world) kindOps(kind string, k int) []string {
 			cnt := 0
 			e := traversal.Progress{Cfg: w.cfg}.WalkMatching(w.nodes[0], w.sel, func(traversal.Progress, datamodel.Node) error { cnt++; return nil })
 			add(errStr(e) + strconv.Itoa(cnt))
+			for i := range w.sels {
+				sel := w.sels[(i+k)%len(w.sels)]
+				var visited []string
+				e := traversal.Progress{Cfg: w.cfg}.WalkAdv(w.nodes[1], sel, func(p traversal.Progress, _ datamodel.Node, why traversal.VisitReason) error {
+					visited = append(visited, p.Path.String()+"#"+strconv.Itoa(int(why)))
+					return nil
+				})
+				add(errStr(e) + strconv.Itoa(len(visited)) + ":" + strings.Join(visited, ","))
+			}
 			n, e := traversal.Progress{Cfg: w.cfg}.Get(w.nodes[0], datamodel.ParsePath("a/1"))
 			add(errStr(e))
 			if e == nil {
